@@ -6,6 +6,11 @@ ALL = ["C%02d" % i for i in range(1, 21)]
 
 # id -> (technique, level text, level note, design ref)
 CHECKS = {
+ "C09": ("exhaustive enumeration of environment behaviours on the real readers/writers: all 2^n fragmentations of inputs <=12 bytes and deviation-bounded short reads (engine.Explore/Deviate, bound 2/3) of longer ones, every failure offset x {EOF, injected} x two legal failure styles (+ one transient failure) for readers, every failure offset for writers; differential oracle against the contiguous run of the same operation",
+         "69 read operations (UnPack in 3 modes, NBT decode into 8 targets in both formats, every wire field and combinator, RCON ReadPacket) and 41 write operations (NBT Encode, Pack, WriteTo, RCON WritePacket) over inputs chosen so that every Read/ReadFull/ReadByte/CopyN/Write site of the anchored files is on some path (coverage-confirmed): identical value, byte count and residual stream under every fragmentation; a failure before the operation has consumed/produced everything must give a non-nil error.",
+         "Trusted: the contiguous run as the baseline (its conformance is C01/C06/C07's business). Which error is returned, byte counts alongside errors, an error delivered together with the last needed byte, and PluginMessageData ending at EOF are unspecified. (0,nil) reads are not generated.",
+         "DESIGN.md §2 C09"),
+
  "C04": ("bounded exhaustive enumeration in both directions on the real converter: every NBT tree <=N nodes over a quoting/literal-classifier alphabet (binary->text->binary), every string <=L over a 22-character alphabet, every token sequence <=K over punctuation + 28 literals, every printed text under all lexical styles and <=2 whitespace deviations plus every single-token mutant (text->binary); judged by an independent three-valued SNBT reader and ref/refnbt",
          "binary->text->binary yields the identical tree (tags, integers, strings exact, finite floats bit-exact; StringifiedMessage and RawMessage.String agree; TagType equals the root tag). Every text the parser accepts yields one well-formed document that agrees with the reference reading when the reference accepts, with the announced tag type; every text the reference rejects (trailing garbage, truncation, mixed lists, wrong array elements...) is an error; never a panic.",
          "Trusted: ref/refsnbt (204 hand vectors + printer/reader identity + bigtest values) and ref/refnbt. The reference REJECTs only what every sane reader rejects; vanilla disagreements (true/false, trailing commas, irregular numeric tokens, other escapes, NaN/Inf, empty-list element tags) are unspecified: executed, panic-checked, output must still be a well-formed document.",
